@@ -97,6 +97,13 @@ MUTANTS = [
     ("C10", "cuqi/experimental/mcmc/_conjugate.py", "    return all(math.isclose(f(x), 1.0 / x) for x in [1.0, 10.0, 100.0])", "    return any(math.isclose(f(x), 1.0 / x) for x in [1.0, 10.0, 100.0])"),
     ("C10", "cuqi/experimental/mcmc/_conjugate.py", "        L = self.target.likelihood.distribution(np.array([1])).sqrtprec # L\n        alpha = self.target.prior.shape                                 # alpha\n        beta = self.target.prior.rate                                   # beta\n\n        dist = Gamma(shape=m/2 + alpha, rate=.5 * np.linalg.norm(L @ (Ax - b))**2 + beta)\n\n        return dist.sample()\n\n\nclass _Reg", "        L = self.target.likelihood.distribution(np.array([1])).sqrtprec # L\n        alpha = self.target.prior.shape                                 # alpha\n        beta = self.target.prior.rate                                   # beta\n\n        dist = Gamma(shape=m/2 + alpha, rate=.5 * np.linalg.norm(L @ (Ax - b))**2)\n\n        return dist.sample()\n\n\nclass _Reg"),
     ("C10", "cuqi/experimental/mcmc/_direct.py", "        self.current_point = self.target.sample()\n        return 1", "        self.current_point = self.target.sample(2).samples[:,-1]\n        return 1"),
+    # C11
+    ("C11", "cuqi/density/_density.py", "        new_density = copy(self)\n        new_density._original_density = self\n        return new_density", "        new_density = self\n        return new_density"),
+    ("C11", "cuqi/distribution/_joint_distribution.py", "        new_joint._densities = self._densities[:] # Shallow copy of densities", "        new_joint._densities = self._densities # Shallow copy of densities"),
+    ("C11", "cuqi/distribution/_joint_distribution.py", "            new_joint._densities[i] = density(**cond_kwargs)", "            new_joint._densities[i] = density(**cond_kwargs) if len(cond_kwargs) > 0 else density"),
+    ("C11", "cuqi/distribution/_distribution.py", "                    func = partial(var_val, **var_args)\n                    setattr(new_dist, var_key, func)", "                    func = partial(var_val, **var_args)\n                    setattr(self, var_key, func)"),
+    ("C11", "cuqi/model/_model.py", "            new_model._non_default_args = [x.name] # Defaults to x if distribution had no name", "            new_model._non_default_args[0] = x.name # Defaults to x if distribution had no name"),
+    ("C11", "cuqi/experimental/mcmc/_gibbs.py", "        self.target = target() # Create a copy of target distribution (to avoid modifying the original)", "        self.target = target # Create a copy of target distribution (to avoid modifying the original)"),
     # C12
     ("C12", "cuqi/model/_model.py", "        if isinstance(x, CUQIarray) and  x.geometry == geometry:\n            x = x.funvals", "        if isinstance(x, CUQIarray) and  x.geometry == geometry:\n            x = x"),
     ("C12", "cuqi/model/_model.py", "        return self._2par(out, func_range_geometry, \n", "        return self._2par(out, func_domain_geometry, \n"),
